@@ -195,6 +195,18 @@ def _work(i):
         ob.func(ctx)
     except (sym.Unsupported, LookupError) as e:
         ctx.inconclusive("%s: %s" % (type(e).__name__, e))
+        # The code no longer has the shape the obligation is formulated over (a field or function it names is gone):
+        # nothing is decided symbolically.  The property's native battery is still run - a deviation there is a
+        # reproduced violation; silence leaves the obligation inconclusive (exit 2), never held.
+        try:
+            mod = sys.modules.get("mirsym.props.%s" % prop)
+            R = mod.rep() if mod is not None and hasattr(mod, "rep") else None
+            if R is not None and R.battery:
+                ctx.violation("the obligation cannot be formulated on this tree (%s); battery run instead" % str(e)[:120], None,
+                              dict(R.facts, what="code shape changed"), R.battery, R.judge, str(e)[:200])
+                ctx.rec["status"] = "inconclusive"
+        except Exception:
+            pass
     except Exception as e:
         ctx.inconclusive("internal error: %s\n%s" % (e, traceback.format_exc()[-1500:]))
     ctx.rec["wall_s"] = round(time.time() - t1, 3)
